@@ -453,7 +453,30 @@ def c13(chk, thorough):
     chk.floor('S5.condensed', 3)
 
 
+def c07(chk, thorough):
+    from . import mlrcheck, matexpr, accum
+    chk.explanation = (
+        'Decides the structural / exact-arithmetic content of C07. MLR() builds the design matrix [1 | X] (MLR.design: cell forms with '
+        'symbolic indices), copies response column j, solves with OrdinaryLeastSquares into a fresh vector and appends it as column j '
+        '(MLR.per-response); OrdinaryLeastSquares is (D\'D)^-1 D\'y on every path (MX.definition, call-sequence algebra) with every product '
+        'written into a zeroed output (ACC.zeroed) -- i.e. the coefficients satisfy the normal equations, from which zero-sum residuals, '
+        'orthogonality to the predictors, exact recovery of noise-free linear data and the equivariances follow; MLRPredictY computes '
+        'b[0][k] + sum_j X[i][j] b[j+1][k] (MLR.predict), residual = predicted - observed (MLR.residual), R2 = 1 - RSS/TSS about the column '
+        'mean stored by MLR() and SDEC = sqrt(RSS/rows) (MLR.r2-sdec). NOT decided: floating-point accuracy of the inverse for '
+        'ill-conditioned X, R2 within [0,1] as a floating-point statement.')
+    chk.assumptions = ['real arithmetic; X of full column rank (premise of the property)',
+                       'cell forms: loops are rectangular unit-step counting loops; accessors getMatrixValue/setMatrixValue read as cells']
+    prog = load_program(chk, ['mlr.c', 'algebra.c', 'matrix.c', 'vector.c'])
+    mlrcheck.run(chk, prog)
+    matexpr.run(chk, prog)
+    accum.run(chk, prog, {'matrix.c', 'vector.c', 'algebra.c'}, {'mlr.c', 'algebra.c'})
+    for r_, fl in (('MLR.design', 2), ('MLR.per-response', 1), ('MLR.predict', 2), ('MLR.residual', 1), ('MLR.r2-sdec', 3), ('MX.definition', 3),
+                   ('ACC.zeroed', 3)):
+        chk.floor(r_, fl)
+
+
 CHECKS = {
+    'C07': c07,
     'C13': c13,
     'C11': c11,
     'C12': c12,
